@@ -91,7 +91,7 @@ CLAIMED = {
    note="Trusted: Coq kernel; regex is_match oracle with the escape law as premise (tested); end to end proved for a single file; for include trees the per-file text theorem and the flat-list run theorem are both proved, their composition needs every file to be written once (a file included twice is rewritten twice, the last content wins: UpdateEndToEndEx.include_twice_last_write_wins). Known findings D5, D12, D19 listed; D18 and D19 were found by these proofs (D18 fixed)."),
  "C07": dict(
    text="Coq theorems C07_frame (only the expectation may change), C07_only_kind_change (query -> statement count N only for a statement completion), C07_skipped_unchanged, C07_failed_command_unchanged, "
-        "C07_pass_keeps (a passing record keeps its expectation as written; row-wise mode), C07_file_frame_and_halt (file level: one record out per record in, same kind and position, markers/halts/non-executable records verbatim, every record from the first halt of the flattened list on - in whichever file - written exactly as it was). Correspondence: records before/after Runner::update_test_file compared field by field; records that pass (Runner::run "
+        "C07_pass_keeps (a passing record keeps its expectation as written; row-wise mode), C07_file_frame_and_halt (file level: one record out per record in, same kind and position, markers/halts/non-executable records verbatim, every record from the first halt of the flattened list on - in whichever file - written exactly as it was), C07_text_frame (single file, content to content: the written file parses to records that correspond one to one to the original ones, equal where the updater left the record alone, changed in the expectation only otherwise, equal from the first halt on). Correspondence: records before/after Runner::update_test_file compared field by field; records that pass (Runner::run "
         "on the original), are skipped, lie after halt, or are failing commands must keep their expectation; half of the cases are fixed points of a previous update so that many expectations are correct.",
    ref="4/C07", technique="Coq proof (finite case analysis over update_record) + differential correspondence",
    note="Trusted: Coq kernel; D5 (value-wise mode) is a listed known finding; D18 (halt scoped per file) found and fixed; 'lies after halt' is judged by the property's meaning (first halt of the flattened script)."),
@@ -110,7 +110,7 @@ CLAIMED = {
    note="Trusted: Coq kernel; process environment as oracle table; partial: test-directory uniqueness/removal is tempfile/OS behaviour (observed, not proved); __NOW__ and the directory path canonicalised."),
  "C05": dict(
    text="Coq theorems C05_format_sound (for every parseable text without a CR-terminated line: the written records parse again to a semantically equal script), C05_format_idem (formatting the formatted text reproduces it byte for byte), "
-        "C05_duration_roundtrip (every Duration is written as one word that humantime reads back to the same value), C05_default_columns_stable - about the parser model and the model of Display; proved through an invariant of parser output, "
+        "C05_duration_roundtrip (every Duration is written as one word that humantime reads back to the same value), C05_default_columns_stable, and through `--format` on files C05_format_file_single / C05_format_file_tree (the content `--format` writes - records' text plus the trimmer - parses again to the same meaning and re-formatting it reproduces the bytes, per file of an include tree; premise dangling_end = known finding D19) - about the parser model and the model of Display; proved through an invariant of parser output, "
         "a canonical re-rendering and the C03 round trip. Correspondence: parse -> Display -> parse -> Display on generated scripts and all fixtures vs the model, semantic equality and idempotence evaluated on the implementation, "
         "and `sqllogictest --format` run twice on real files (bytes vs model incl. the trailing-newline trimmer, files with 0..100 trailing blank lines). Defects D1 D2 D14 D17 found and fixed; D16 known.",
    ref="4/C05", technique="Coq proof (parser-output invariant + C03 round trip + humantime number theory) + differential correspondence incl. the real CLI",
